@@ -162,6 +162,8 @@ class Engine:
         self.subs = []      # (step, topic)
         self.logic_in = []  # (step, data)
         self.cb_raise = False
+        self.cb_set_armed = False
+        self.cb_set_calls = []
         self.pub_raise = False
         self.sub_raise = False
         self.pump_exc = None
@@ -211,6 +213,17 @@ class Engine:
              (msg.node_id, msg.child_id, msg.type, msg.ack, msg.sub_type, msg.payload),
              projection(self.gw.sensors))
         )
+        if self.cb_set_armed and msg.type == 1:
+            # one-shot: the controller reacts to this report from inside the callback with a command for the same child
+            # and value type (a set-point being enforced, a manual change being undone)
+            self.cb_set_armed = False
+            value = {"1": "0", "0": "1"}.get(msg.payload, msg.payload)
+            err = None
+            try:
+                self.gw.set_child_value(msg.node_id, msg.child_id, msg.sub_type, value)
+            except Exception as exc:      # judged like any refused controller call
+                err = exc
+            self.cb_set_calls.append((msg.node_id, msg.child_id, msg.sub_type, value, err is not None))
         if self.cb_raise:
             raise self._injected("callback")
 
